@@ -46,6 +46,7 @@ func routerPkg(path string) string {
 }
 
 func runC17(c *core.Ctx) {
+	checkIDsFromOwnCounter(c, "C17.id-from-own-counter", "native/service/governance/...")
 	checkUpdateFeeRound(c)
 	checkVoteTagsDistinct(c, "C17.ledger-tag")
 	nRd := checkReaderParamsInKey(c, "C17.params-in-key", inNativeService)
